@@ -7,7 +7,9 @@
 // nothing), 1: next panics before writing, 2: next writes `code`, then panics.
 // kind 3, a SCRIPT through the middleware chain the rest engine builds inside the breaker:
 // [3, chain, gap, dur, m, end, op...]  chain 0 handler, 1 Recover(handler), 2 Timeout(handler),
-// 3 Timeout(Recover(handler)) (engine.go's order); op: 1 Write, 2 Flush, c >= 100 WriteHeader(c);
+// 3 Timeout(Recover(handler)) (engine.go's order); op: 1 Write, 2 Flush, c >= 100 WriteHeader(c),
+// 3 the client cancels the request's context now, 4 the request's deadline passes now (both only in
+// chains without TimeoutHandler, which would race with the handler; the handler itself goes on);
 // end 0 return, 1 panic, 2 stall until the route's timeout fires, 3 stall until the client
 // cancels.  A stalling handler is parked on a channel that is released only after the chain has
 // returned, so the timeout / cancel branch is the only one TimeoutHandler can take; requests that
@@ -69,6 +71,7 @@ func TestVerifC01W(t *testing.T) {
 		pv := &struct{ n int }{c.ID}
 		var parked chan struct{}
 		var release chan struct{}
+		var ctxCancel, ctxExpire func()
 		next := http.HandlerFunc(func(w http.ResponseWriter, r *http.Request) {
 			invoked.Add(1)
 			q := cur
@@ -92,6 +95,10 @@ func TestVerifC01W(t *testing.T) {
 						if f, ok := w.(http.Flusher); ok {
 							f.Flush()
 						}
+					case op == 3:
+						ctxCancel()
+					case op == 4:
+						ctxExpire()
 					default:
 						w.WriteHeader(int(op))
 					}
@@ -132,8 +139,14 @@ func TestVerifC01W(t *testing.T) {
 					isShort = 1
 				}
 				hh = chains[[2]int64{q[1], isShort}]
+				// a controller-driven deadline context (done only when the script says so) under a cancel
+				ctx0, expire := breaker.VerifCtx(breaker.VCDeadlineAtReturn)
 				var ctx context.Context
-				ctx, cancel = context.WithCancel(context.Background())
+				ctx, cancel = context.WithCancel(ctx0)
+				ctxCancel, ctxExpire = cancel, func() {
+					expire()
+					<-ctx.Done() // the cancel context has taken the parent's end over
+				}
 				req = req.WithContext(ctx)
 				parked = make(chan struct{}, 1)
 				release = make(chan struct{})
